@@ -26,3 +26,13 @@ pub open spec fn no_double_space(s: Seq<u8>) -> bool {
 pub open spec fn header_normal(s: Seq<u8>) -> bool {
     no_double_space(s) && (s.len() > 0 ==> s[0] != 0x20 && s.last() != 0x20)
 }
+
+// ---- ASCII whitespace trimming (u8::is_ascii_whitespace: space, \t, \n, \x0C, \r) ----
+pub open spec fn is_ws(b: u8) -> bool { b == 0x20 || b == 0x09 || b == 0x0a || b == 0x0c || b == 0x0d }
+pub open spec fn trim_ws_start(s: Seq<u8>) -> Seq<u8>
+    decreases s.len()
+{ if s.len() > 0 && is_ws(s[0]) { trim_ws_start(s.drop_first()) } else { s } }
+pub open spec fn trim_ws_end(s: Seq<u8>) -> Seq<u8>
+    decreases s.len()
+{ if s.len() > 0 && is_ws(s.last()) { trim_ws_end(s.drop_last()) } else { s } }
+pub open spec fn trim_ws(s: Seq<u8>) -> Seq<u8> { trim_ws_end(trim_ws_start(s)) }
